@@ -3,7 +3,7 @@
    showing the hypotheses are met by non-trivial values.  Model: Model/BibtexStr.v
    (pybtex/bibtex/utils.py); notions the property refers to: Spec/BibtexStrSpec.v. *)
 From Pybtex Require Import Base.Prelude Base.PyChar Base.PyStr Model.BibtexStr Spec.BibtexStrSpec
-  Proofs.BibtexStr Proofs.BibtexStrCase Proofs.BibtexStrSplit.
+  Proofs.BibtexStr Proofs.BibtexStrCase Proofs.BibtexStrSplit Proofs.BibtexStrAlg.
 
 (* ---- scanning into (token, brace level) pairs ---- *)
 
@@ -280,6 +280,45 @@ Theorem split_separators :
 Proof. exact (conj matched_comma (conj matched_hyphen (conj matched_and matched_space))). Qed.
 Print Assumptions split_separators.
 
+(* ---- the algebra: a balanced string in front does not interfere ---- *)
+
+Theorem scan_app : forall a b ra rb, balanced a -> scan a = Ok ra -> scan b = Ok rb ->
+  scan (a ++ b) = Ok (ra ++ rb).
+Proof. exact scan_app_lemma. Qed.
+Print Assumptions scan_app.
+
+Theorem len_additive : forall a b n m, balanced a -> bibtex_len a = Ok n -> bibtex_len b = Ok m ->
+  bibtex_len (a ++ b) = Ok (n + m).
+Proof. exact len_additive_lemma. Qed.
+Print Assumptions len_additive.
+
+Theorem purify_additive : forall a b p q, balanced a -> bibtex_purify a = Ok p -> bibtex_purify b = Ok q ->
+  bibtex_purify (a ++ b) = Ok (p ++ q).
+Proof. exact purify_additive_lemma. Qed.
+Print Assumptions purify_additive.
+
+(* for every width table cw (the table is data: charwidths.get(c, 0)) *)
+Theorem width_additive : forall cw a b x y, balanced a -> bibtex_width cw a = Ok x -> bibtex_width cw b = Ok y ->
+  bibtex_width cw (a ++ b) = Ok (x + y)%Z.
+Proof. exact width_additive_lemma. Qed.
+Print Assumptions width_additive.
+
+(* ---- first letter ---- *)
+
+(* on a balanced string bibtex_first_letter looks at exactly the "characters" text.length$ counts
+   (the non-brace tokens of the scan), and returns the first that is a letter or a special character *)
+Theorem first_letter_spec : forall s ts, balanced s -> scan s = Ok ts ->
+  bibtex_first_letter s = Ok (first_letter_of (map fst (filter (fun t => negb (tok_is_brace (fst t))) ts))).
+Proof. exact first_letter_spec_lemma. Qed.
+Print Assumptions first_letter_spec.
+
+(* the result is empty, one letter, or a whole special character in its braces *)
+Theorem first_letter_shape : forall s r, bibtex_first_letter s = Ok r ->
+  r = [] \/ (exists c, r = [c] /\ is_alpha c = true) \/
+  (exists t, r = c_lbrace :: t ++ [c_rbrace] /\ bs_head t = true /\ 2 <= length t).
+Proof. exact first_letter_shape_lemma. Qed.
+Print Assumptions first_letter_shape.
+
 (* ---- non-vacuity ---- *)
 Example scan_example :
   balanced (s2l "a{b{\c}}{\'e}f") /\
@@ -320,3 +359,8 @@ Example split_example :
     Ok [s2l "a {b c} d"; s2l "{e and f}"; s2l "g"] /\
   split_tex_string_gen sep_space (s2l "a {b c}~d\ e\~f") false true = Ok [s2l "a"; s2l "{b c}"; s2l "d"; s2l "e\~f"].
 Proof. vm_compute. auto. Qed.
+Example algebra_example :
+  balanced (s2l "a{\'e}") /\ bibtex_len (s2l "a{\'e}") = Ok 2 /\ bibtex_len (s2l "{x}y") = Ok 2 /\
+  bibtex_len (s2l "a{\'e}{x}y") = Ok 4 /\
+  bibtex_first_letter (s2l "12{\TeX} markup") = Ok (s2l "{\TeX}") /\ bibtex_first_letter (s2l "{1}{b}c") = Ok (s2l "b").
+Proof. vm_compute. auto 8. Qed.
